@@ -50,10 +50,14 @@ deriving instance DecidableEq for Except
 
 /-- Equivalence class of a value under Python `==` (NaN apart): `int`, `Decimal`, `float` and
 `bool` compare by exact numeric value (`True == 1 == 1.0 == Decimal(1)`), `str` and `AnyURI` by
-their string (uri.py `AnyURI.__eq__`), dates by `AbstractDateTime._compare`: year first, then the
-instants with a missing timezone read as UTC. -/
+their string (uri.py `AnyURI.__eq__`), dates by `AbstractDateTime._compare` (datetime.py:257-289,
+after C11's fix "values of contiguous years are compared as instants"): equal years → the two
+`datetime`s with a missing timezone read as UTC; years differing by at most 2 → `todelta()`, i.e.
+again the instants with a missing timezone read as UTC; otherwise unequal.  Two real dates with
+the same instant have years at most 1 apart, so `==` on dates is "same `utc` field"
+(the `year` field of a `Key.date` is the lexical year of that very date — harness invariant). -/
 inductive EqRep where
-  | num (v : Rat) | nan | inf (neg : Bool) | text (s : List Nat) | date (year utc : Int)
+  | num (v : Rat) | nan | inf (neg : Bool) | text (s : List Nat) | date (utc : Int)
   deriving DecidableEq
 
 def Key.eqRep : Key → EqRep
@@ -65,13 +69,13 @@ def Key.eqRep : Key → EqRep
   | .dinf n => .inf n
   | .str s => .text s
   | .uri s => .text s
-  | .date y u _ => .date y u
+  | .date _ u _ => .date u
 
 /-- What a Python dict distinguishes: `hash(k)` and `==`.  Hashes agree with `==` on numbers,
 booleans and strings (`hash(1) = hash(1.0) = hash(Decimal(1)) = hash(True)`,
 `AnyURI.__hash__ = hash(value)`); for dates `hash((self._dt, self._year))` separates a naive from
-an aware `datetime` (assumption: no accidental collision), so those two never meet in a dict
-although they are `==`. -/
+an aware `datetime` and two different lexical years (assumption: no accidental collision), so
+such dates never meet in a dict although they can be `==`. -/
 inductive DictRep where
   | num (v : Rat) | nan | inf (neg : Bool) | text (s : List Nat) | date (year utc : Int) (aware : Bool)
   deriving DecidableEq
